@@ -6,6 +6,7 @@ Notation as in C16t: `val t : ℚ` the exact value `hi + lo`, `rval t : ℝ` its
 import TFV.Properties.C16u
 import TFV.Properties.C13s
 import TFV.Properties.C17
+import TFV.Properties.C17p
 
 set_option exponentiation.threshold 3000
 
@@ -148,6 +149,1147 @@ theorem restricted_asin_rel {x : TwoFloat} (hv : x.Valid) (hw : x.WF) (hhi : |va
         ≤ |rval x| * (1 / 2 ^ 45 + 1 / 2 ^ 48) := by
       rw [← mul_add]
       exact mul_le_mul_of_nonneg_left (by norm_num) (abs_nonneg _)
+    linarith
+
+/-! ## 2. operator glue in rational form -/
+
+theorem half_facts : (f64lit 0x3fe0000000000000).is_finite = true ∧ (f64lit 0x3fe0000000000000).WF ∧
+    (f64lit 0x3fe0000000000000).toInt = 2 ^ 1073 := by decide +kernel
+
+theorem two_facts : (f64lit 0x4000000000000000).is_finite = true ∧ (f64lit 0x4000000000000000).WF ∧
+    (f64lit 0x4000000000000000).toInt = 2 ^ 1075 ∧
+    2 ^ 624 ≤ (f64lit 0x4000000000000000).toInt.natAbs ∧ (f64lit 0x4000000000000000).toInt.natAbs ≤ 2 ^ 1524 := by
+  decide +kernel
+
+theorem one_natAbs : (f64lit 0x3ff0000000000000).toInt.natAbs < 2 ^ 2095 := by decide +kernel
+
+/-- `1.0 - a` (f64 − TwoFloat) -/
+theorem one_sub_val {a : TwoFloat} (hv : a.Valid) (hw : a.WF) (ha : |val a| ≤ 2 ^ 30) :
+    (arithmetic.impl_Sub_rTwoFloat_for_rf64.sub (f64lit 0x3ff0000000000000) a).Valid ∧
+    (arithmetic.impl_Sub_rTwoFloat_for_rf64.sub (f64lit 0x3ff0000000000000) a).WF ∧
+    |val (arithmetic.impl_Sub_rTwoFloat_for_rf64.sub (f64lit 0x3ff0000000000000) a) - (1 - val a)|
+      ≤ 1 / 2 ^ 105 * |1 - val a| := by
+  have hxh : a.hi.toInt.natAbs < 2 ^ 2095 :=
+    lt_trans (hi_natAbs_lt hv ha) (Nat.pow_lt_pow_right (by norm_num) (by norm_num))
+  obtain ⟨hV, hb⟩ := C03b.sub_f64_tf_bound hv hw lit_one_facts.1 lit_one_facts.2.1 hxh one_natAbs
+  refine ⟨hV, TwoFloat.sub_ft_WF _ a, ?_⟩
+  have h := scaled_le (N := 1) (D := 2 ^ 105) (by positivity) (by simpa using hb)
+  rw [lit_one_facts.2.2] at h
+  have hc : (((2 : Int) ^ 1074 - a.V : Int) : ℚ) = (2 : ℚ) ^ 1074 - (a.V : ℚ) := by
+    rw [Int.cast_sub, Int.cast_pow, Int.cast_ofNat]
+  rw [hc, Nat.cast_one, Nat.cast_pow, Nat.cast_ofNat] at h
+  unfold val
+  have e : (1 : ℚ) - (a.V : ℚ) / 2 ^ 1074 = ((2 : ℚ) ^ 1074 - (a.V : ℚ)) / 2 ^ 1074 := by
+    rw [sub_div, div_self (by positivity)]
+  rw [e]
+  exact h
+
+/-- `s / 2.0` (TwoFloat / f64), `s.hi` of magnitude in `[2^-450, 2^450]` -/
+theorem div_two_val {s : TwoFloat} (hv : s.Valid) (hw : s.WF)
+    (hA : 2 ^ 624 ≤ s.hi.toInt.natAbs ∧ s.hi.toInt.natAbs ≤ 2 ^ 1524) :
+    (arithmetic.impl_Div_rf64_for_rTwoFloat.div s (f64lit 0x4000000000000000)).Valid ∧
+    (arithmetic.impl_Div_rf64_for_rTwoFloat.div s (f64lit 0x4000000000000000)).WF ∧
+    |val (arithmetic.impl_Div_rf64_for_rTwoFloat.div s (f64lit 0x4000000000000000)) - val s / 2|
+      ≤ 17 / 2 ^ 109 * |val s| := by
+  obtain ⟨t1, t2, t3, t4, t5⟩ := two_facts
+  obtain ⟨hV, hb, _⟩ := C01d.div_tf_f64_bound_partial s _ hv hw t1 t2 hA.1 hA.2 t4 t5
+  refine ⟨hV, TwoFloat.div_tf_WF s _, ?_⟩
+  have hb' : 2 ^ 108 * |(arithmetic.impl_Div_rf64_for_rTwoFloat.div s (f64lit 0x4000000000000000)).V
+      * (f64lit 0x4000000000000000).toInt - s.V * (unit : Int)| ≤ 17 * |s.V * (unit : Int)| := hb
+  generalize arithmetic.impl_Div_rf64_for_rTwoFloat.div s (f64lit 0x4000000000000000) = q at *
+  rw [t3, unit_cast_eq] at hb'
+  have hq : (2 : ℚ) ^ 108 * |(q.V : ℚ) * 2 ^ 1075 - s.V * 2 ^ 1074| ≤ 17 * |(s.V : ℚ) * 2 ^ 1074| := by
+    exact_mod_cast hb'
+  unfold val
+  have hW : (0 : ℚ) < 2 ^ 1074 := by positivity
+  have e0 : (2 : ℚ) ^ 1075 = 2 * 2 ^ 1074 := by rw [← pow_succ']
+  rw [e0] at hq
+  generalize (2 : ℚ) ^ 1074 = W at *
+  have e1 : (q.V : ℚ) * (2 * W) - s.V * W = W * (2 * q.V - s.V) := by ring
+  rw [e1, abs_mul, abs_mul, abs_of_pos hW] at hq
+  have e2 : (q.V : ℚ) / W - s.V / W / 2 = (2 * q.V - s.V) / (2 * W) := by field_simp
+  rw [e2, abs_div, abs_div, abs_of_pos hW, abs_of_pos (by positivity : (0 : ℚ) < 2 * W),
+    div_le_iff₀ (by positivity)]
+  have e3 : 17 / 2 ^ 109 * (|(s.V : ℚ)| / W) * (2 * W) = 17 / 2 ^ 108 * |(s.V : ℚ)| := by
+    field_simp
+  rw [e3]
+  have h5 : (2 : ℚ) ^ 108 * |2 * (q.V : ℚ) - s.V| ≤ 17 * |(s.V : ℚ)| := by
+    have : W * ((2 : ℚ) ^ 108 * |2 * (q.V : ℚ) - s.V|) ≤ W * (17 * |(s.V : ℚ)|) := by nlinarith
+    exact le_of_mul_le_mul_left this hW
+  rw [div_mul_eq_mul_div, le_div_iff₀ (by positivity)]
+  linarith
+
+/-- `2.0 * a` (f64 · TwoFloat), `a.hi` of magnitude in `[2^-900, 2^900]` -/
+theorem two_mul_val {a : TwoFloat} (hv : a.Valid) (hw : a.WF)
+    (hA : 2 ^ 174 ≤ a.hi.toInt.natAbs ∧ a.hi.toInt.natAbs ≤ 2 ^ 1974) :
+    (arithmetic.impl_Mul_rTwoFloat_for_rf64.mul (f64lit 0x4000000000000000) a).Valid ∧
+    (arithmetic.impl_Mul_rTwoFloat_for_rf64.mul (f64lit 0x4000000000000000) a).WF ∧
+    |val (arithmetic.impl_Mul_rTwoFloat_for_rf64.mul (f64lit 0x4000000000000000) a) - 2 * val a|
+      ≤ 1 / 2 ^ 105 * |2 * val a| := by
+  obtain ⟨t1, t2, t3, _, _⟩ := two_facts
+  have hr : a.hi.toInt * (f64lit 0x4000000000000000).toInt = 0 ∨
+      ((2 : Int) ^ 1188 ≤ |a.hi.toInt * (f64lit 0x4000000000000000).toInt| ∧
+        |a.hi.toInt * (f64lit 0x4000000000000000).toInt| < (2 : Int) ^ 3169) := by
+    right
+    rw [t3, abs_mul, abs_of_pos (by positivity : (0 : Int) < 2 ^ 1075)]
+    have p1 : (2 : Int) ^ 174 ≤ |a.hi.toInt| := by rw [Int.abs_eq_natAbs]; exact_mod_cast hA.1
+    have p2 : |a.hi.toInt| ≤ (2 : Int) ^ 1974 := by rw [Int.abs_eq_natAbs]; exact_mod_cast hA.2
+    constructor
+    · have e : (2 : Int) ^ 1188 ≤ 2 ^ 174 * 2 ^ 1075 := by
+        rw [← pow_add]; exact pow_le_pow_right₀ (by norm_num) (by norm_num)
+      exact le_trans e (mul_le_mul_of_nonneg_right p1 (by positivity))
+    · have e : (2 : Int) ^ 1974 * 2 ^ 1075 < 2 ^ 3169 := by
+        rw [← pow_add]; exact pow_lt_pow_right₀ (by norm_num) (by norm_num)
+      exact lt_of_le_of_lt (mul_le_mul_of_nonneg_right p2 (by positivity)) e
+  obtain ⟨hV, hb⟩ := C04b.mul_f64_tf_bound hv hw t1 t2 hr
+  refine ⟨hV, PF.mul_ft_WF _ a, ?_⟩
+  generalize arithmetic.impl_Mul_rTwoFloat_for_rf64.mul (f64lit 0x4000000000000000) a = p at *
+  rw [t3, unit_cast_eq] at hb
+  have hq : |(p.V : ℚ) * 2 ^ 1074 - 2 ^ 1075 * a.V| * 2 ^ 105 ≤ |(2 : ℚ) ^ 1075 * a.V| := by exact_mod_cast hb
+  unfold val
+  have hW : (0 : ℚ) < 2 ^ 1074 := by positivity
+  have e0 : (2 : ℚ) ^ 1075 = 2 * 2 ^ 1074 := by rw [← pow_succ']
+  rw [e0] at hq
+  generalize (2 : ℚ) ^ 1074 = W at *
+  have e1 : (p.V : ℚ) * W - 2 * W * a.V = W * (p.V - 2 * a.V) := by ring
+  have e1' : 2 * W * (a.V : ℚ) = W * (2 * a.V) := by ring
+  rw [e1, e1', abs_mul, abs_mul, abs_of_pos hW] at hq
+  have e2 : (p.V : ℚ) / W - 2 * (a.V / W) = (p.V - 2 * a.V) / W := by field_simp
+  have e3 : 2 * ((a.V : ℚ) / W) = (2 * a.V) / W := by ring
+  rw [e2, e3, abs_div, abs_div, abs_of_pos hW, ← mul_div_assoc, div_le_div_iff_of_pos_right hW,
+    div_mul_eq_mul_div, one_mul, le_div_iff₀ (by positivity)]
+  have : W * (|(p.V : ℚ) - 2 * a.V| * 2 ^ 105) ≤ W * |2 * (a.V : ℚ)| := by nlinarith
+  exact le_of_mul_le_mul_left this hW
+
+/-- `TwoFloat.sqrt` against `Real.sqrt` of the value: relative `21 u²` -/
+theorem sqrt_rval {x : TwoFloat} (hv : x.Valid) (hw : x.WF) (hpos : 0 < x.V)
+    (hlo : 2 ^ 174 ≤ x.hi.toInt.natAbs) (hhi : x.hi.toInt.natAbs ≤ 2 ^ 2074) :
+    (TwoFloat.sqrt x).Valid ∧ (TwoFloat.sqrt x).WF ∧
+    |rval (TwoFloat.sqrt x) - Real.sqrt (rval x)| ≤ 21 / 2 ^ 106 * Real.sqrt (rval x) := by
+  obtain ⟨hV, hW, hb⟩ := C13s.sqrt_bound_21u2 hv hw hpos hlo hhi
+  refine ⟨hV, hW, ?_⟩
+  rw [F64.unit_real] at hb
+  have ex : rval x = (x.V : ℝ) / 2 ^ 1074 := by unfold rval val; push_cast; rfl
+  have es : rval (TwoFloat.sqrt x) = ((TwoFloat.sqrt x).V : ℝ) / 2 ^ 1074 := by unfold rval val; push_cast; rfl
+  have hW0 : (0 : ℝ) < 2 ^ 1074 := by positivity
+  have hxp : (0 : ℝ) ≤ rval x := by
+    rw [ex]; have : (0 : ℝ) < (x.V : ℝ) := by exact_mod_cast hpos
+    positivity
+  have e1 : Real.sqrt ((x.V : ℝ) * 2 ^ 1074) = Real.sqrt (rval x) * 2 ^ 1074 := by
+    have : (x.V : ℝ) * 2 ^ 1074 = rval x * (2 ^ 1074) ^ 2 := by rw [ex]; field_simp
+    rw [this, Real.sqrt_mul hxp, Real.sqrt_sq hW0.le]
+  rw [e1] at hb
+  rw [es]
+  generalize (2 : ℝ) ^ 1074 = W at *
+  generalize Real.sqrt (rval x) = S at *
+  have e2 : ((TwoFloat.sqrt x).V : ℝ) / W - S = (((TwoFloat.sqrt x).V : ℝ) - S * W) / W := by field_simp
+  rw [e2, abs_div, abs_of_pos hW0, div_le_iff₀ hW0]
+  have : (2 : ℝ) ^ 106 * (21 / 2 ^ 106 * S * W) = 21 * (S * W) := by field_simp
+  have p : (0 : ℝ) < 2 ^ 106 := by positivity
+  nlinarith
+
+/-! ## 3. `asin` -/
+
+theorem abs_val_lt_iff (t : TwoFloat) (n : Int) : (n : ℚ) / 2 ^ 1074 < |val t| ↔ n < |t.V| := by
+  rw [abs_val, div_lt_div_iff_of_pos_right (by positivity)]
+  exact_mod_cast Iff.rfl
+
+theorem abs_val_le_iff (t : TwoFloat) (n : Int) : |val t| ≤ (n : ℚ) / 2 ^ 1074 ↔ |t.V| ≤ n := by
+  rw [abs_val, div_le_div_iff_of_pos_right (by positivity)]
+  exact_mod_cast Iff.rfl
+
+theorem abs_facts {x : TwoFloat} (hv : x.Valid) (hw : x.WF) :
+    (TwoFloat.abs x).Valid ∧ (TwoFloat.abs x).WF ∧ val (TwoFloat.abs x) = |val x| := by
+  have hiv : TwoFloat.is_valid x = true := (C07.is_valid_iff x hw).2 hv
+  have ha : (TwoFloat.abs x).Valid := by
+    rcases C06.abs_eq_or_neg x with h | h
+    · rw [h]; exact hv
+    · rw [h]; exact hv.neg hw.1
+  refine ⟨ha, PF.abs_WF hw, ?_⟩
+  rw [abs_val]
+  unfold val
+  rw [C06.abs_exact hiv hv]
+
+/-- the test `|x| > 1.0` of `asin` compares the exact values -/
+theorem cmp_one {x : TwoFloat} (hv : x.Valid) (hw : x.WF) :
+    ROrd.isGt (base.impl_PartialOrd_f64_for_TwoFloat.partial_cmp (TwoFloat.abs x) (f64lit 0x3ff0000000000000)) = true
+      ↔ 1 < |val x| := by
+  obtain ⟨ha, _, hval⟩ := abs_facts hv hw
+  have h := C06.gt_f64_exact ha lit_one_facts.2.1 lit_one_facts.1
+  rw [show base.impl_PartialOrd_f64_for_TwoFloat.partial_cmp = C06.cmpTF from rfl, h, lit_one_facts.2.2]
+  have hiv : TwoFloat.is_valid x = true := (C07.is_valid_iff x hw).2 hv
+  rw [C06.abs_exact hiv hv, ← abs_val_lt_iff]
+  have : (((2 : Int) ^ 1074 : Int) : ℚ) / 2 ^ 1074 = 1 := by
+    rw [Int.cast_pow, Int.cast_ofNat, div_self (by positivity)]
+  rw [this]
+
+/-- the test `|x| <= 0.5` of `asin` compares the exact values -/
+theorem cmp_half {x : TwoFloat} (hv : x.Valid) (hw : x.WF) :
+    ROrd.isLe (base.impl_PartialOrd_f64_for_TwoFloat.partial_cmp (TwoFloat.abs x) (f64lit 0x3fe0000000000000)) = true
+      ↔ |val x| ≤ 1 / 2 := by
+  obtain ⟨ha, _, hval⟩ := abs_facts hv hw
+  have h := C06.le_f64_exact ha half_facts.2.1 half_facts.1
+  rw [show base.impl_PartialOrd_f64_for_TwoFloat.partial_cmp = C06.cmpTF from rfl, h, half_facts.2.2]
+  have hiv : TwoFloat.is_valid x = true := (C07.is_valid_iff x hw).2 hv
+  rw [C06.abs_exact hiv hv, ← abs_val_le_iff]
+  have : (((2 : Int) ^ 1073 : Int) : ℚ) / 2 ^ 1074 = 1 / 2 := by
+    rw [Int.cast_pow, Int.cast_ofNat, pow_succ (2 : ℚ) 1073, div_mul_eq_div_div, div_self (by positivity)]
+  rw [this]
+
+/-- **C17 (asin), `|x| ≤ 1/2`**: valid result, error at most `|x|·(2^-45 + 2^-48)` (hence relative to `arcsin x`) -/
+theorem asin_small_bound {x : TwoFloat} (hv : x.Valid) (hw : x.WF) (hx : |val x| ≤ 1 / 2) :
+    (TwoFloat.asin x).Valid ∧
+    |rval (TwoFloat.asin x) - Real.arcsin (rval x)| ≤ |rval x| * (1 / 2 ^ 45 + 1 / 2 ^ 48) := by
+  have hiv : TwoFloat.is_valid x = true := (C07.is_valid_iff x hw).2 hv
+  have h1 : ROrd.isGt (base.impl_PartialOrd_f64_for_TwoFloat.partial_cmp (TwoFloat.abs x)
+      (f64lit 0x3ff0000000000000)) = false :=
+    Bool.eq_false_iff.2 (fun h => absurd ((cmp_one hv hw).1 h) (not_lt.2 (le_trans hx (by norm_num))))
+  have h2 := (cmp_half hv hw).2 hx
+  rw [C17.asin_small x hiv h1 h2]
+  have hhi : |val x| ≤ asinRho := le_trans hx (by unfold asinRho; norm_num)
+  exact ⟨(restricted_asin_real hv hw hhi).1, restricted_asin_rel hv hw hhi⟩
+
+/-- the large branch of `asin`, unfolded -/
+theorem asin_large_eq (x : TwoFloat) (hiv : TwoFloat.is_valid x = true)
+    (h1 : ROrd.isGt (base.impl_PartialOrd_f64_for_TwoFloat.partial_cmp (TwoFloat.abs x)
+      (f64lit 0x3ff0000000000000)) = false)
+    (h2 : ROrd.isLe (base.impl_PartialOrd_f64_for_TwoFloat.partial_cmp (TwoFloat.abs x)
+      (f64lit 0x3fe0000000000000)) = false) :
+    TwoFloat.asin x =
+      if TwoFloat.is_sign_positive x then
+        arithmetic.impl_Sub_rTwoFloat_for_rTwoFloat.sub consts.FRAC_PI_2
+          (arithmetic.impl_Mul_rTwoFloat_for_rf64.mul (f64lit 0x4000000000000000)
+            (trigonometry.restricted_asin (TwoFloat.sqrt (arithmetic.impl_Div_rf64_for_rTwoFloat.div
+              (arithmetic.impl_Sub_rTwoFloat_for_rf64.sub (f64lit 0x3ff0000000000000) (TwoFloat.abs x))
+              (f64lit 0x4000000000000000)))))
+      else
+        arithmetic.impl_Neg_for_TwoFloat.neg (arithmetic.impl_Sub_rTwoFloat_for_rTwoFloat.sub consts.FRAC_PI_2
+          (arithmetic.impl_Mul_rTwoFloat_for_rf64.mul (f64lit 0x4000000000000000)
+            (trigonometry.restricted_asin (TwoFloat.sqrt (arithmetic.impl_Div_rf64_for_rTwoFloat.div
+              (arithmetic.impl_Sub_rTwoFloat_for_rf64.sub (f64lit 0x3ff0000000000000) (TwoFloat.abs x))
+              (f64lit 0x4000000000000000)))))) := by
+  unfold TwoFloat.asin
+  simp only [hiv, h1, h2, Bool.not_true, Bool.false_or, Bool.false_eq_true, if_false]
+  rfl
+
+theorem chain_s1 {A v : ℚ} (hA1 : 1 / 2 < A) (hA2 : A ≤ 1 - 1 / 2 ^ 440)
+    (h1 : |v - (1 - A)| ≤ 1 / 2 ^ 105 * |1 - A|) :
+    (1 / 2 ^ 441 ≤ |v|) ∧ (|v| ≤ 1) ∧ 0 < v := by
+  have hp : 0 < 1 - A := by
+    have : (0 : ℚ) < 1 / 2 ^ 440 := by positivity
+    linarith
+  rw [abs_of_pos hp] at h1
+  obtain ⟨l, u⟩ := abs_le.1 h1
+  have hsm : 1 / 2 ^ 105 * (1 - A) ≤ 1 / 2 * (1 - A) := mul_le_mul_of_nonneg_right (by norm_num) hp.le
+  have hv0 : 0 < v := by linarith
+  rw [abs_of_pos hv0]
+  refine ⟨?_, by linarith, hv0⟩
+  have : (1 : ℚ) / 2 ^ 441 = 1 / 2 * (1 / 2 ^ 440) := by norm_num
+  rw [this]; linarith
+
+theorem chain_d {A v d : ℚ} (hA1 : 1 / 2 < A) (hA2 : A ≤ 1 - 1 / 2 ^ 440)
+    (h1 : |v - (1 - A)| ≤ 1 / 2 ^ 105 * |1 - A|) (h2 : |d - v / 2| ≤ 17 / 2 ^ 109 * |v|) :
+    (|d - (1 - A) / 2| ≤ 1 / 2 ^ 102 * ((1 - A) / 2)) ∧ (1 / 2 ^ 443 ≤ |d|) ∧ (|d| ≤ 1) ∧ 0 < d := by
+  have hp : 0 < 1 - A := by
+    have : (0 : ℚ) < 1 / 2 ^ 440 := by positivity
+    linarith
+  obtain ⟨_, _, hv0⟩ := chain_s1 hA1 hA2 h1
+  rw [abs_of_pos hp] at h1
+  rw [abs_of_pos hv0] at h2
+  obtain ⟨l, u⟩ := abs_le.1 h1
+  obtain ⟨l2, u2⟩ := abs_le.1 h2
+  have hvu : v ≤ 2 * (1 - A) := by
+    have : 1 / 2 ^ 105 * (1 - A) ≤ 1 * (1 - A) := mul_le_mul_of_nonneg_right (by norm_num) hp.le
+    linarith
+  have k1 : 17 / 2 ^ 109 * v ≤ 17 / 2 ^ 108 * (1 - A) := by
+    have := mul_le_mul_of_nonneg_left hvu (by positivity : (0 : ℚ) ≤ 17 / 2 ^ 109)
+    have e : (17 : ℚ) / 2 ^ 109 * (2 * (1 - A)) = 17 / 2 ^ 108 * (1 - A) := by ring
+    linarith
+  have hd : |d - (1 - A) / 2| ≤ 1 / 2 ^ 102 * ((1 - A) / 2) := by
+    rw [abs_le]
+    have e : (1 : ℚ) / 2 ^ 102 * ((1 - A) / 2) = (1 / 2 ^ 106 + 17 / 2 ^ 108 + 11 / 2 ^ 108) * (1 - A) := by ring
+    have : (0 : ℚ) ≤ 11 / 2 ^ 108 * (1 - A) := by positivity
+    constructor <;> nlinarith
+  obtain ⟨l3, u3⟩ := abs_le.1 hd
+  have hsm : 1 / 2 ^ 102 * ((1 - A) / 2) ≤ 1 / 2 * ((1 - A) / 2) :=
+    mul_le_mul_of_nonneg_right (by norm_num) (by linarith)
+  have hd0 : 0 < d := by linarith
+  rw [abs_of_pos hd0]
+  refine ⟨hd, ?_, by linarith, hd0⟩
+  have : (1 : ℚ) / 2 ^ 443 = 1 / 4 * (1 / 2 ^ 440) / 2 := by norm_num
+  rw [this]; linarith
+
+theorem V_pos_of_val_pos {t : TwoFloat} (h : 0 < val t) : 0 < t.V := by
+  unfold val at h
+  have : (0 : ℚ) < (t.V : ℚ) := by
+    by_contra hn
+    have : (t.V : ℚ) / 2 ^ 1074 ≤ 0 := div_nonpos_of_nonpos_of_nonneg (not_lt.1 hn) (by positivity)
+    linarith
+  exact_mod_cast this
+
+theorem rval_abs_le {t : TwoFloat} {b : ℚ} (h : |rval t| ≤ (b : ℝ)) : |val t| ≤ b := by
+  rw [abs_rval] at h; exact_mod_cast h
+
+theorem rval_abs_ge {t : TwoFloat} {b : ℚ} (h : (b : ℝ) ≤ |rval t|) : b ≤ |val t| := by
+  rw [abs_rval] at h; exact_mod_cast h
+
+/-- real arithmetic of the square-root step -/
+theorem chain_q {z rd rq : ℝ} (hz1 : 1 / 2 ^ 442 ≤ z) (hz2 : z ≤ 1 / 4) (hd : |rd - z| ≤ 1 / 2 ^ 102 * z)
+    (hq : |rq - Real.sqrt rd| ≤ 21 / 2 ^ 106 * Real.sqrt rd) :
+    |rq - Real.sqrt z| ≤ 1 / 2 ^ 101 * Real.sqrt z ∧ Real.sqrt z ≤ 1 / 2 ∧ 1 / 2 ^ 221 ≤ Real.sqrt z := by
+  have hz0 : 0 < z := lt_of_lt_of_le (by positivity) hz1
+  have hrd0 : 0 < rd := by
+    have := (abs_le.1 hd).1
+    have : 1 / 2 ^ 102 * z ≤ 1 / 2 * z := mul_le_mul_of_nonneg_right (by norm_num) hz0.le
+    linarith
+  have hp := SqrtReal.sqrt_perturb hz0 (by positivity : (0 : ℝ) < 1 / 2 ^ 102) (by norm_num) hrd0 hd
+  have hs0 : 0 < Real.sqrt z := Real.sqrt_pos.2 hz0
+  have hs1 : Real.sqrt z ≤ 1 / 2 := Real.sqrt_le_iff.2 ⟨by norm_num, by norm_num; linarith⟩
+  have hs2 : 1 / 2 ^ 221 ≤ Real.sqrt z := by
+    refine Real.le_sqrt_of_sq_le ?_
+    refine le_trans (le_of_eq ?_) hz1
+    rw [div_pow, one_pow, ← pow_mul]
+  refine ⟨?_, hs1, hs2⟩
+  set S := Real.sqrt z
+  set D := Real.sqrt rd
+  have hD : D ≤ S * (1 + 1 / 2 ^ 102) := by
+    have := (abs_le.1 hp).2
+    have : 0.5001 * (1 / 2 ^ 102) * S ≤ 1 / 2 ^ 102 * S := by nlinarith
+    linarith
+  have e : rq - S = (rq - D) + (D - S) := by ring
+  rw [e]
+  refine le_trans (abs_add_le _ _) ?_
+  have h3 : 21 / 2 ^ 106 * D ≤ 21 / 2 ^ 106 * (S * (1 + 1 / 2 ^ 102)) :=
+    mul_le_mul_of_nonneg_left hD (by positivity)
+  have h4 : 21 / 2 ^ 106 * (S * (1 + 1 / 2 ^ 102)) + 0.5001 * (1 / 2 ^ 102) * S ≤ 1 / 2 ^ 101 * S := by
+    have : (21 : ℝ) / 2 ^ 106 * (1 + 1 / 2 ^ 102) + 0.5001 * (1 / 2 ^ 102) ≤ 1 / 2 ^ 101 := by norm_num
+    nlinarith
+  linarith
+
+theorem cast_abs_sub_le {a b c : ℚ} (h : |a - b| ≤ c) : |(a : ℝ) - (b : ℝ)| ≤ (c : ℝ) := by
+  have := (Rat.cast_le (K := ℝ)).2 h
+  rwa [Rat.cast_abs, Rat.cast_sub] at this
+
+/-- **the half-angle branch of `asin`, before the sign**: for `1/2 < |x| ≤ 1 − 2^-440` the value
+`π/2 − 2·restricted_asin(√((1 − |x|)/2))` computed by the crate is within `21·2^-50` of `arcsin |x|` -/
+theorem asin_core {x : TwoFloat} (hv : x.Valid) (hw : x.WF) (h1 : 1 / 2 < |val x|) (h2 : |val x| ≤ 1 - 1 / 2 ^ 440) :
+    (arithmetic.impl_Sub_rTwoFloat_for_rTwoFloat.sub consts.FRAC_PI_2
+      (arithmetic.impl_Mul_rTwoFloat_for_rf64.mul (f64lit 0x4000000000000000)
+        (trigonometry.restricted_asin (TwoFloat.sqrt (arithmetic.impl_Div_rf64_for_rTwoFloat.div
+          (arithmetic.impl_Sub_rTwoFloat_for_rf64.sub (f64lit 0x3ff0000000000000) (TwoFloat.abs x))
+          (f64lit 0x4000000000000000)))))).Valid ∧
+    (arithmetic.impl_Sub_rTwoFloat_for_rTwoFloat.sub consts.FRAC_PI_2
+      (arithmetic.impl_Mul_rTwoFloat_for_rf64.mul (f64lit 0x4000000000000000)
+        (trigonometry.restricted_asin (TwoFloat.sqrt (arithmetic.impl_Div_rf64_for_rTwoFloat.div
+          (arithmetic.impl_Sub_rTwoFloat_for_rf64.sub (f64lit 0x3ff0000000000000) (TwoFloat.abs x))
+          (f64lit 0x4000000000000000)))))).WF ∧
+    |rval (arithmetic.impl_Sub_rTwoFloat_for_rTwoFloat.sub consts.FRAC_PI_2
+      (arithmetic.impl_Mul_rTwoFloat_for_rf64.mul (f64lit 0x4000000000000000)
+        (trigonometry.restricted_asin (TwoFloat.sqrt (arithmetic.impl_Div_rf64_for_rTwoFloat.div
+          (arithmetic.impl_Sub_rTwoFloat_for_rf64.sub (f64lit 0x3ff0000000000000) (TwoFloat.abs x))
+          (f64lit 0x4000000000000000)))))) - Real.arcsin (|rval x|)| ≤ 21 / 2 ^ 50 := by
+  obtain ⟨ha, hwa, hval⟩ := abs_facts hv hw
+  set a := TwoFloat.abs x with hadef
+  have hx1 : |val x| ≤ 1 := by
+    have : (0 : ℚ) < 1 / 2 ^ 440 := by positivity
+    linarith
+  have haA : |val a| ≤ 2 ^ 30 := by rw [hval, _root_.abs_abs]; exact le_trans hx1 (by norm_num)
+  obtain ⟨hv1, hw1, he1⟩ := one_sub_val ha hwa haA
+  rw [hval] at he1
+  set s1 := arithmetic.impl_Sub_rTwoFloat_for_rf64.sub (f64lit 0x3ff0000000000000) a with hs1
+  obtain ⟨c1, c2, _⟩ := chain_s1 h1 h2 he1
+  have hr1 := hi_range_gen hv1 (k := 441) (j := 0) (by norm_num) c1 (by simpa using c2)
+  obtain ⟨hv2, hw2, he2⟩ := div_two_val hv1 hw1
+    ⟨le_trans (Nat.pow_le_pow_right (by norm_num) (by norm_num)) hr1.1,
+     le_trans hr1.2 (Nat.pow_le_pow_right (by norm_num) (by norm_num))⟩
+  set d := arithmetic.impl_Div_rf64_for_rTwoFloat.div s1 (f64lit 0x4000000000000000) with hd
+  obtain ⟨d1, d2, d3, d4⟩ := chain_d h1 h2 he1 he2
+  have hr2 := hi_range_gen hv2 (k := 443) (j := 0) (by norm_num) d2 (by simpa using d3)
+  obtain ⟨hv3, hw3, he3⟩ := sqrt_rval hv2 hw2 (V_pos_of_val_pos d4)
+    (le_trans (Nat.pow_le_pow_right (by norm_num) (by norm_num)) hr2.1)
+    (le_trans hr2.2 (Nat.pow_le_pow_right (by norm_num) (by norm_num)))
+  set sq := TwoFloat.sqrt d with hsq
+  -- to the reals
+  have hA1 : (1 : ℝ) / 2 < |rval x| := by
+    rw [abs_rval]
+    have := (Rat.cast_lt (K := ℝ)).2 h1
+    push_cast at this
+    rw [← Rat.cast_abs] at this
+    exact this
+  have hA2 : |rval x| ≤ 1 - 1 / 2 ^ 440 := by
+    rw [abs_rval]
+    have := (Rat.cast_le (K := ℝ)).2 h2
+    push_cast at this
+    rw [← Rat.cast_abs] at this
+    exact this
+  have hdR : |rval d - (1 - |rval x|) / 2| ≤ 1 / 2 ^ 102 * ((1 - |rval x|) / 2) := by
+    have := cast_abs_sub_le d1
+    rw [abs_rval]
+    push_cast at this
+    rw [← Rat.cast_abs] at this
+    exact this
+  set z : ℝ := (1 - |rval x|) / 2 with hz
+  have hz1 : 1 / 2 ^ 442 ≤ z := by
+    rw [hz]
+    have : (1 : ℝ) / 2 ^ 442 = 1 / 2 ^ 440 / 2 / 2 := by norm_num
+    have p : (0 : ℝ) < 1 / 2 ^ 440 := by positivity
+    rw [this]; linarith
+  have hz2 : z ≤ 1 / 4 := by rw [hz]; linarith
+  obtain ⟨q1, q2, q3⟩ := chain_q hz1 hz2 hdR he3
+  set S := Real.sqrt z with hS
+  have hS0 : 0 < S := lt_of_lt_of_le (by positivity) q3
+  obtain ⟨ql, qu⟩ := abs_le.1 q1
+  have hsm : 1 / 2 ^ 101 * S ≤ 1 / 2 * S := mul_le_mul_of_nonneg_right (by norm_num) hS0.le
+  have hq0 : 0 < rval sq := by linarith
+  have hqlo : S / 2 ≤ rval sq := by linarith
+  have hqhi : rval sq ≤ 1 / 2 + 1 / 2 ^ 17 := by
+    have : 1 / 2 ^ 101 * S ≤ 1 / 2 ^ 101 * (1 / 2) := mul_le_mul_of_nonneg_left q2 (by positivity)
+    have : (1 : ℝ) / 2 ^ 101 * (1 / 2) ≤ 1 / 2 ^ 17 := by norm_num
+    linarith
+  have hqQ : |val sq| ≤ asinRho := by
+    refine rval_abs_le ?_
+    rw [abs_of_pos hq0]
+    unfold asinRho; push_cast; exact hqhi
+  obtain ⟨hv4, hw4, _, he4⟩ := restricted_asin_real hv3 hw3 hqQ
+  have he4rel := restricted_asin_rel hv3 hw3 hqQ
+  set ra := trigonometry.restricted_asin sq with hra
+  have hq1 : rval sq ≤ 1 := le_trans hqhi (by norm_num)
+  have hasq := le_arcsin hq0.le hq1
+  have hasq2 : Real.arcsin (rval sq) ≤ 2 := by
+    have := Real.arcsin_le_pi_div_two (rval sq)
+    have := Real.pi_le_four
+    linarith
+  rw [abs_of_pos hq0] at he4rel
+  have hra_lo : (1 : ℝ) / 2 ^ 223 ≤ rval ra := by
+    have := (abs_le.1 he4rel).1
+    have h3 : rval sq * (1 / 2 ^ 45 + 1 / 2 ^ 48) ≤ rval sq * (1 / 2) :=
+      mul_le_mul_of_nonneg_left (by norm_num) hq0.le
+    have h4 : (1 : ℝ) / 2 ^ 223 = 1 / 2 ^ 221 / 2 / 2 := by norm_num
+    rw [h4]; linarith
+  have hra_hi : |rval ra| ≤ 2 := by
+    rw [abs_of_pos (lt_of_lt_of_le (by positivity) hra_lo)]
+    have := (abs_le.1 he4).2
+    have : (10 : ℝ) / 2 ^ 50 ≤ 0 + 1 / 2 ^ 40 := by norm_num
+    have := Real.arcsin_le_pi_div_two (rval sq)
+    have := Real.pi_lt_d2
+    linarith
+  have hraQ1 : (1 : ℚ) / 2 ^ 223 ≤ |val ra| := by
+    refine rval_abs_ge ?_
+    rw [abs_of_pos (lt_of_lt_of_le (by positivity) hra_lo)]
+    push_cast; exact hra_lo
+  have hraQ2 : |val ra| ≤ 2 ^ 1 := by
+    refine rval_abs_le ?_
+    push_cast; rw [pow_one]; exact hra_hi
+  have hr4 := hi_range_gen hv4 (k := 223) (j := 1) (by norm_num) hraQ1 hraQ2
+  obtain ⟨hv5, hw5, he5⟩ := two_mul_val hv4 hw4
+    ⟨le_trans (Nat.pow_le_pow_right (by norm_num) (by norm_num)) hr4.1,
+     le_trans hr4.2 (Nat.pow_le_pow_right (by norm_num) (by norm_num))⟩
+  set m2 := arithmetic.impl_Mul_rTwoFloat_for_rf64.mul (f64lit 0x4000000000000000) ra with hm2
+  have h2ra : |2 * val ra| ≤ 4 := by
+    rw [abs_mul]; norm_num at hraQ2 ⊢; linarith
+  have he5' : |val m2 - 2 * val ra| ≤ 1 / 2 ^ 103 := by
+    refine le_trans he5 ?_
+    have := mul_le_mul_of_nonneg_left h2ra (by positivity : (0 : ℚ) ≤ 1 / 2 ^ 105)
+    refine le_trans this ?_
+    norm_num
+  have hm2b : |val m2| ≤ 5 := by
+    have := abs_add_le (val m2 - 2 * val ra) (2 * val ra)
+    rw [sub_add_cancel] at this
+    have : (1 : ℚ) / 2 ^ 103 ≤ 1 := by norm_num
+    linarith
+  obtain ⟨hvP, hwP, hP1, hP2, _⟩ := P_facts
+  have hPb : |val consts.FRAC_PI_2| ≤ 2 := by
+    rw [abs_of_pos (by linarith)]; linarith
+  obtain ⟨hv6, hw6, he6⟩ := sub_tt_val hvP hwP hv5 hw5 (le_trans hPb (by norm_num)) (le_trans hm2b (by norm_num))
+  refine ⟨hv6, hw6, ?_⟩
+  set R := arithmetic.impl_Sub_rTwoFloat_for_rTwoFloat.sub consts.FRAC_PI_2 m2 with hR
+  have he6' : |val R - (val consts.FRAC_PI_2 - val m2)| ≤ 7 / 2 ^ 104 := by
+    refine le_trans he6 ?_
+    have h7 : |val consts.FRAC_PI_2 - val m2| ≤ 7 := le_trans (abs_sub _ _) (by linarith)
+    have := mul_le_mul cA_le h7 (abs_nonneg _) (by positivity)
+    refine le_trans this ?_
+    norm_num
+  -- everything in ℝ
+  have t1 : |rval R - (rval consts.FRAC_PI_2 - rval m2)| ≤ 7 / 2 ^ 104 := by
+    have := cast_abs_sub_le he6'
+    unfold rval
+    push_cast at this ⊢
+    exact this
+  have t2 := P_real_err
+  have t3 : |rval m2 - 2 * rval ra| ≤ 1 / 2 ^ 103 := by
+    have := cast_abs_sub_le he5'
+    unfold rval
+    push_cast at this ⊢
+    exact this
+  have t5 : |Real.arcsin (rval sq) - Real.arcsin S| ≤ 1 / 2 ^ 101 := by
+    have hq33 : |rval sq| ≤ 33 / 64 := by
+      rw [abs_of_pos hq0]; exact le_trans hqhi (by norm_num)
+    have hS33 : |S| ≤ 33 / 64 := by rw [abs_of_pos hS0]; linarith
+    refine le_trans (arcsin_lipschitz hq33 hS33) ?_
+    have : 1 / 2 ^ 101 * S ≤ 1 / 2 ^ 101 * (1 / 2) := mul_le_mul_of_nonneg_left q2 (by positivity)
+    have h20 : (20 : ℝ) / 17 * (1 / 2 ^ 101 * (1 / 2)) ≤ 1 / 2 ^ 101 := by norm_num
+    have := mul_le_mul_of_nonneg_left (le_trans q1 this) (by norm_num : (0 : ℝ) ≤ 20 / 17)
+    linarith
+  have hhalf := arcsin_half_angle (x := |rval x|) (abs_nonneg _) (by
+    have : (0 : ℝ) < 1 / 2 ^ 440 := by positivity
+    linarith)
+  rw [hhalf]
+  have e : rval R - (Real.pi / 2 - 2 * Real.arcsin S)
+      = (rval R - (rval consts.FRAC_PI_2 - rval m2)) + (rval consts.FRAC_PI_2 - Real.pi / 2)
+        - (rval m2 - 2 * rval ra) - 2 * (rval ra - Real.arcsin (rval sq))
+        - 2 * (Real.arcsin (rval sq) - Real.arcsin S) := by ring
+  rw [e]
+  have b1 := abs_le.1 t1
+  have b2 := abs_le.1 t2
+  have b3 := abs_le.1 t3
+  have b4 := abs_le.1 he4
+  have b5 := abs_le.1 t5
+  have num : (7 : ℝ) / 2 ^ 104 + 1 / 2 ^ 106 + 1 / 2 ^ 103 + 2 * (10 / 2 ^ 50) + 2 * (1 / 2 ^ 101) ≤ 21 / 2 ^ 50 := by
+    norm_num
+  rw [abs_le]
+  constructor <;> linarith [b1.1, b1.2, b2.1, b2.2, b3.1, b3.2, b4.1, b4.2, b5.1, b5.2]
+
+theorem rval_pos_iff (t : TwoFloat) : 0 < rval t ↔ 0 < t.V := by
+  unfold rval val
+  push_cast
+  constructor
+  · intro h
+    have : (0 : ℝ) < (t.V : ℝ) := by
+      by_contra hn
+      have : (t.V : ℝ) / 2 ^ 1074 ≤ 0 := div_nonpos_of_nonpos_of_nonneg (not_lt.1 hn) (by positivity)
+      linarith
+    exact_mod_cast this
+  · intro h
+    have : (0 : ℝ) < (t.V : ℝ) := by exact_mod_cast h
+    positivity
+
+/-- **C17 (asin), `1/2 < |x| ≤ 1 − 2^-440`**: valid result within `21·2^-50 < 2^-45.6` of `arcsin x` -/
+theorem asin_large_bound {x : TwoFloat} (hv : x.Valid) (hw : x.WF) (h1 : 1 / 2 < |val x|)
+    (h2 : |val x| ≤ 1 - 1 / 2 ^ 440) :
+    (TwoFloat.asin x).Valid ∧ |rval (TwoFloat.asin x) - Real.arcsin (rval x)| ≤ 21 / 2 ^ 50 := by
+  have hiv : TwoFloat.is_valid x = true := (C07.is_valid_iff x hw).2 hv
+  have hx1 : |val x| ≤ 1 := by
+    have : (0 : ℚ) < 1 / 2 ^ 440 := by positivity
+    linarith
+  have h1b : ROrd.isGt (base.impl_PartialOrd_f64_for_TwoFloat.partial_cmp (TwoFloat.abs x)
+      (f64lit 0x3ff0000000000000)) = false :=
+    Bool.eq_false_iff.2 (fun h => absurd ((cmp_one hv hw).1 h) (not_lt.2 hx1))
+  have h2b : ROrd.isLe (base.impl_PartialOrd_f64_for_TwoFloat.partial_cmp (TwoFloat.abs x)
+      (f64lit 0x3fe0000000000000)) = false :=
+    Bool.eq_false_iff.2 (fun h => absurd ((cmp_half hv hw).1 h) (not_le.2 h1))
+  obtain ⟨hvR, hwR, heR⟩ := asin_core hv hw h1 h2
+  rw [asin_large_eq x hiv h1b h2b]
+  have hV0 : x.V ≠ 0 := by
+    intro h0
+    have : val x = 0 := by unfold val; rw [h0]; simp
+    rw [this, abs_zero] at h1
+    norm_num at h1
+  cases hs : TwoFloat.is_sign_positive x
+  · have hneg : ¬ (0 < x.V) := fun h => by
+      have := (C06.is_sign_positive_exact hiv hv hV0).2 h
+      rw [hs] at this; exact Bool.false_ne_true this
+    have hrn : rval x < 0 := by
+      have h3 : ¬ (0 < rval x) := fun h => hneg ((rval_pos_iff x).1 h)
+      have h4 : rval x ≠ 0 := by
+        intro h0
+        unfold rval at h0
+        have : val x = 0 := by exact_mod_cast h0
+        rw [this, abs_zero] at h1
+        norm_num at h1
+      exact lt_of_le_of_ne (not_lt.1 h3) h4
+    simp only [Bool.false_eq_true, if_false]
+    refine ⟨neg_valid hvR hwR, ?_⟩
+    rw [rval_neg]
+    rw [abs_of_neg hrn, Real.arcsin_neg] at heR
+    rw [← abs_neg]
+    refine le_trans (le_of_eq ?_) heR
+    congr 1; ring
+  · have hpos := (C06.is_sign_positive_exact hiv hv hV0).1 hs
+    have hrp := (rval_pos_iff x).2 hpos
+    simp only [if_true]
+    rw [abs_of_pos hrp] at heR
+    exact ⟨hvR, heR⟩
+
+theorem abs_le_abs_arcsin {y : ℝ} (h : |y| ≤ 1) : |y| ≤ |Real.arcsin y| := by
+  rcases le_total 0 y with h0 | h0
+  · rw [abs_of_nonneg h0] at h ⊢
+    exact le_trans (le_arcsin h0 h) (le_abs_self _)
+  · rw [abs_of_nonpos h0] at h ⊢
+    have := le_arcsin (y := -y) (by linarith) h
+    rw [Real.arcsin_neg] at this
+    exact le_trans this (neg_le_abs _)
+
+/-- **C17, asin, absolute**: valid `x`, `|x| ≤ 1 − 2^-440` ⇒ valid result, `|asin(x) − arcsin x| ≤ 23·2^-50 < 2^-45` -/
+theorem asin_abs_bound {x : TwoFloat} (hv : x.Valid) (hw : x.WF) (hx : |val x| ≤ 1 - 1 / 2 ^ 440) :
+    (TwoFloat.asin x).Valid ∧ |rval (TwoFloat.asin x) - Real.arcsin (rval x)| ≤ 23 / 2 ^ 50 := by
+  by_cases hs : |val x| ≤ 1 / 2
+  · obtain ⟨h1, h2⟩ := asin_small_bound hv hw hs
+    refine ⟨h1, le_trans h2 ?_⟩
+    have hr : |rval x| ≤ 1 / 2 := by have := rval_le hs; push_cast at this; exact this
+    have := mul_le_mul_of_nonneg_right hr (by positivity : (0 : ℝ) ≤ 1 / 2 ^ 45 + 1 / 2 ^ 48)
+    refine le_trans this ?_
+    norm_num
+  · obtain ⟨h1, h2⟩ := asin_large_bound hv hw (not_le.1 hs) hx
+    exact ⟨h1, le_trans h2 (by norm_num)⟩
+
+theorem C17_asin_abs {x : TwoFloat} (hv : x.Valid) (hw : x.WF) (hx : |val x| ≤ 1 - 1 / 2 ^ 440) :
+    |rval (TwoFloat.asin x) - Real.arcsin (rval x)| ≤ 1 / 2 ^ 45 :=
+  le_trans (asin_abs_bound hv hw hx).2 (by norm_num)
+
+/-- **C17, asin, relative**: valid `x`, `|x| ≤ 1 − 2^-440` ⇒ `|asin(x) − arcsin x| ≤ 2^-43·|arcsin x|` -/
+theorem C17_asin_rel {x : TwoFloat} (hv : x.Valid) (hw : x.WF) (hx : |val x| ≤ 1 - 1 / 2 ^ 440) :
+    |rval (TwoFloat.asin x) - Real.arcsin (rval x)| ≤ 1 / 2 ^ 43 * |Real.arcsin (rval x)| := by
+  have hx1 : |val x| ≤ 1 := by
+    have : (0 : ℚ) < 1 / 2 ^ 440 := by positivity
+    linarith
+  have hr1 : |rval x| ≤ 1 := by have := rval_le hx1; push_cast at this; exact this
+  have hge := abs_le_abs_arcsin hr1
+  by_cases hs : |val x| ≤ 1 / 2
+  · obtain ⟨_, h2⟩ := asin_small_bound hv hw hs
+    refine le_trans h2 ?_
+    have h3 : |rval x| * (1 / 2 ^ 45 + 1 / 2 ^ 48) ≤ |rval x| * (1 / 2 ^ 43) :=
+      mul_le_mul_of_nonneg_left (by norm_num) (abs_nonneg _)
+    have h4 := mul_le_mul_of_nonneg_left hge (by positivity : (0 : ℝ) ≤ 1 / 2 ^ 43)
+    linarith
+  · obtain ⟨_, h2⟩ := asin_large_bound hv hw (not_le.1 hs) hx
+    refine le_trans h2 ?_
+    have hr : (1 : ℝ) / 2 ≤ |rval x| := by
+      have := rval_abs_ge (t := x) (b := 1 / 2)
+      rw [abs_rval]
+      have h5 := (Rat.cast_le (K := ℝ)).2 (not_le.1 hs).le
+      push_cast at h5
+      rw [← Rat.cast_abs] at h5
+      exact h5
+    have h4 := mul_le_mul_of_nonneg_left (le_trans hr hge) (by positivity : (0 : ℝ) ≤ 1 / 2 ^ 43)
+    have : (21 : ℝ) / 2 ^ 50 ≤ 1 / 2 ^ 43 * (1 / 2) := by norm_num
+    linarith
+
+/-! ### the end points `x = ±1` -/
+
+theorem asin_at_one (s u : Bool) :
+    (TwoFloat.asin ⟨F64.fin s (2 ^ 1074), F64.fin u 0⟩).Valid ∧
+    (TwoFloat.asin ⟨F64.fin s (2 ^ 1074), F64.fin u 0⟩).V
+      = (if s then -consts.FRAC_PI_2.V else consts.FRAC_PI_2.V) ∧
+    (TwoFloat.acos ⟨F64.fin s (2 ^ 1074), F64.fin u 0⟩).Valid ∧
+    (TwoFloat.acos ⟨F64.fin s (2 ^ 1074), F64.fin u 0⟩).V = (if s then consts.PI.V else 0) := by
+  cases s <;> cases u <;> decide +kernel
+
+theorem toInt_fin (s : Bool) (a : Nat) : (F64.fin s a).toInt = if s then -(a : Int) else (a : Int) := by
+  cases s <;> rfl
+
+/-- a valid pair of value `±1` is `(±1.0, ±0)` -/
+theorem shape_of_unit {x : TwoFloat} (hv : x.Valid) (h : |x.V| = (unit : Int)) :
+    ∃ s u : Bool, x = ⟨F64.fin s (2 ^ 1074), F64.fin u 0⟩ ∧ (s = true ↔ x.V < 0) := by
+  have hr : RepI x.V := by
+    rcases abs_eq (by exact_mod_cast (Nat.zero_le unit)) |>.1 h with e | e
+    · rw [e]; have := repI_int (k := 1) (by norm_num); simpa using this
+    · rw [e]; have := repI_int (k := -1) (by norm_num); simpa using this
+  obtain ⟨⟨f1, z1⟩, ⟨f2, z2⟩⟩ := Valid.isV_of_repI hv hr
+  rcases x with ⟨hi, lo⟩
+  obtain ⟨s, a, rfl⟩ := F64.is_finite_iff.mp f1
+  obtain ⟨u, b, rfl⟩ := F64.is_finite_iff.mp f2
+  have hb : b = 0 := TwoFloat.toInt_eq_zero_iff.1 z2
+  subst hb
+  have hu := unit_cast_eq
+  have hue : (unit : Nat) = 2 ^ 1074 := F64.unit_eq
+  simp only at z1
+  rw [toInt_fin] at z1
+  rw [← z1] at h
+  refine ⟨s, u, ?_, ?_⟩
+  · cases s
+    · simp only [Bool.false_eq_true, if_false] at h
+      have : (a : Int) = (unit : Int) := by rw [← h]; exact (abs_of_nonneg (by positivity)).symm
+      have ha : a = unit := by exact_mod_cast this
+      rw [ha, hue]
+    · simp only [if_true, abs_neg] at h
+      have : (a : Int) = (unit : Int) := by rw [← h]; exact (abs_of_nonneg (by positivity)).symm
+      have ha : a = unit := by exact_mod_cast this
+      rw [ha, hue]
+  · rw [← z1]
+    have hpos : (0 : Int) < (a : Int) := by
+      have : |(if s = true then -(a : Int) else (a : Int))| = (a : Int) := by
+        cases s <;> simp
+      rw [this] at h; rw [h]; exact unit_pos_int
+    cases s <;> simp <;> omega
+
+theorem rval_of_V_eq {t r : TwoFloat} (h : t.V = r.V) : rval t = rval r := by unfold rval val; rw [h]
+theorem rval_of_V_neg {t r : TwoFloat} (h : t.V = -r.V) : rval t = -rval r := by
+  unfold rval val; rw [h]; push_cast; ring
+
+theorem PI_real_err : |rval consts.PI - Real.pi| ≤ 1 / 2 ^ 105 := by
+  have h := C12x.PI_rel_err
+  have e : rval consts.PI = (consts.PI.V : ℝ) / 2 ^ 1074 := by unfold rval val; push_cast; rfl
+  rw [e, abs_sub_comm]
+  refine le_trans h ?_
+  rw [abs_of_pos Real.pi_pos]
+  have := Real.pi_le_four
+  rw [div_le_div_iff₀ (by positivity) (by positivity)]
+  have e2 : (2 : ℝ) ^ 107 = 4 * 2 ^ 105 := by norm_num
+  rw [e2]
+  nlinarith [show (0 : ℝ) < 2 ^ 105 by positivity]
+
+/-- **C17, end points**: for a valid `x = ±1`: `asin x = ±π/2` and `acos x = 0` resp. `π`, to `2^-105` -/
+theorem asin_acos_at_one {x : TwoFloat} (hv : x.Valid) (h : |x.V| = (unit : Int)) :
+    (TwoFloat.asin x).Valid ∧ |rval (TwoFloat.asin x) - Real.arcsin (rval x)| ≤ 1 / 2 ^ 105 ∧
+    (TwoFloat.acos x).Valid ∧ |rval (TwoFloat.acos x) - Real.arccos (rval x)| ≤ 1 / 2 ^ 105 := by
+  obtain ⟨s, u, rfl, hs⟩ := shape_of_unit hv h
+  obtain ⟨a1, a2, a3, a4⟩ := asin_at_one s u
+  have hx : rval ⟨F64.fin s (2 ^ 1074), F64.fin u 0⟩ = if s then -1 else 1 := by
+    have hV : TwoFloat.V ⟨F64.fin s (2 ^ 1074), F64.fin u 0⟩ = (if s then -1 else 1) * (2 : Int) ^ 1074 := by
+      unfold TwoFloat.V
+      rw [toInt_fin, toInt_fin]
+      cases s <;> cases u <;> simp
+    have key : ∀ c : Int, ((((c * (2 : Int) ^ 1074 : Int) : ℚ) / 2 ^ 1074 : ℚ)) = (c : ℚ) := by
+      intro c
+      rw [Int.cast_mul, Int.cast_pow, Int.cast_ofNat, mul_div_assoc, div_self (by positivity), mul_one]
+    unfold rval val
+    rw [hV, key]
+    cases s <;> simp
+  refine ⟨a1, ?_, a3, ?_⟩
+  · cases s
+    · simp only [Bool.false_eq_true, if_false] at a2 hx
+      rw [hx, rval_of_V_eq a2, Real.arcsin_one]
+      exact le_trans P_real_err (by norm_num)
+    · simp only [if_true] at a2 hx
+      rw [hx, rval_of_V_neg a2, Real.arcsin_neg_one, abs_neg_sub_neg]
+      exact le_trans P_real_err (by norm_num)
+  · cases s
+    · simp only [Bool.false_eq_true, if_false] at a4 hx
+      rw [hx, Real.arccos_one]
+      have : rval (TwoFloat.acos ⟨F64.fin false (2 ^ 1074), F64.fin u 0⟩) = 0 := by
+        unfold rval val; rw [a4]; simp
+      rw [this]; norm_num
+    · simp only [if_true] at a4 hx
+      rw [hx, rval_of_V_eq a4, Real.arccos_neg_one]
+      exact PI_real_err
+
+/-! ## 4. `acos` -/
+
+/-- **C17 (acos)**: valid `x`, `|x| ≤ 1 − 2^-440` ⇒ valid result, `|acos(x) − arccos x| ≤ 24·2^-50 < 2^-45` -/
+theorem acos_abs_bound {x : TwoFloat} (hv : x.Valid) (hw : x.WF) (hx : |val x| ≤ 1 - 1 / 2 ^ 440) :
+    (TwoFloat.acos x).Valid ∧ |rval (TwoFloat.acos x) - Real.arccos (rval x)| ≤ 24 / 2 ^ 50 := by
+  obtain ⟨hvA, heA⟩ := asin_abs_bound hv hw hx
+  have hwA := C17p.asin_WF x
+  have hivA : TwoFloat.is_valid (TwoFloat.asin x) = true := (C07.is_valid_iff _ hwA).2 hvA
+  rw [C17.acos_eq x hivA]
+  obtain ⟨hvP, hwP, hP1, hP2, _⟩ := P_facts
+  have hPb : |val consts.FRAC_PI_2| ≤ 2 := by
+    rw [abs_of_pos (by linarith)]; linarith
+  have hasb : |Real.arcsin (rval x)| ≤ 2 := by
+    rw [abs_le]
+    have := Real.arcsin_le_pi_div_two (rval x)
+    have := Real.neg_pi_div_two_le_arcsin (rval x)
+    have := Real.pi_le_four
+    constructor <;> linarith
+  have hAr : |rval (TwoFloat.asin x)| ≤ 3 := by
+    have := abs_add_le (rval (TwoFloat.asin x) - Real.arcsin (rval x)) (Real.arcsin (rval x))
+    rw [sub_add_cancel] at this
+    have : (23 : ℝ) / 2 ^ 50 ≤ 1 := by norm_num
+    linarith
+  have hAq : |val (TwoFloat.asin x)| ≤ 3 := by
+    refine rval_abs_le ?_
+    push_cast; exact hAr
+  obtain ⟨hv6, _, he6⟩ := sub_tt_val hvP hwP hvA hwA (le_trans hPb (by norm_num)) (le_trans hAq (by norm_num))
+  refine ⟨hv6, ?_⟩
+  have he6' : |val (arithmetic.impl_Sub_rTwoFloat_for_rTwoFloat.sub consts.FRAC_PI_2 (TwoFloat.asin x))
+      - (val consts.FRAC_PI_2 - val (TwoFloat.asin x))| ≤ 5 / 2 ^ 104 := by
+    refine le_trans he6 ?_
+    have h7 : |val consts.FRAC_PI_2 - val (TwoFloat.asin x)| ≤ 5 := le_trans (abs_sub _ _) (by linarith)
+    have := mul_le_mul cA_le h7 (abs_nonneg _) (by positivity)
+    refine le_trans this ?_
+    norm_num
+  have t1 : |rval (arithmetic.impl_Sub_rTwoFloat_for_rTwoFloat.sub consts.FRAC_PI_2 (TwoFloat.asin x))
+      - (rval consts.FRAC_PI_2 - rval (TwoFloat.asin x))| ≤ 5 / 2 ^ 104 := by
+    have := cast_abs_sub_le he6'
+    unfold rval
+    push_cast at this ⊢
+    exact this
+  have t2 := P_real_err
+  rw [Real.arccos_eq_pi_div_two_sub_arcsin]
+  show |rval (arithmetic.impl_Sub_rTwoFloat_for_rTwoFloat.sub consts.FRAC_PI_2 (TwoFloat.asin x))
+      - (Real.pi / 2 - Real.arcsin (rval x))| ≤ 24 / 2 ^ 50
+  have b1 := abs_le.1 t1
+  have b2 := abs_le.1 t2
+  have b3 := abs_le.1 heA
+  have num : (5 : ℝ) / 2 ^ 104 + 1 / 2 ^ 106 + 23 / 2 ^ 50 ≤ 24 / 2 ^ 50 := by norm_num
+  rw [abs_le]
+  constructor <;> linarith [b1.1, b1.2, b2.1, b2.2, b3.1, b3.2]
+
+theorem C17_acos_abs {x : TwoFloat} (hv : x.Valid) (hw : x.WF) (hx : |val x| ≤ 1 - 1 / 2 ^ 440) :
+    |rval (TwoFloat.acos x) - Real.arccos (rval x)| ≤ 1 / 2 ^ 45 :=
+  le_trans (acos_abs_bound hv hw hx).2 (by norm_num)
+
+/-! ## 5. `restricted_atan` against `Real.arctan` -/
+
+theorem ATAN_COEFFS_val : trigonometry.ATAN_COEFFS.map val = atanCoeffs := by decide +kernel
+
+theorem ATAN_COEFFS_ok : ∀ c ∈ trigonometry.ATAN_COEFFS, c.Valid ∧ c.WF := by decide +kernel
+
+theorem atan_hBnd : hBnd atanT0 atanCoeffs = true := by decide +kernel
+
+theorem atan_innerZero : InnerZero trigonometry.ATAN_COEFFS := by
+  intro s u
+  cases s <;> cases u <;> decide +kernel
+
+theorem sq_le_atanT0 {v : ℚ} (h : |v| ≤ atanRho) : v ^ 2 ≤ atanT0 := by
+  have h2 := pow_le_pow_left₀ (abs_nonneg v) h 2
+  rw [sq_abs] at h2
+  exact h2
+
+/-- rounding error of `restricted_atan` against the exact rational polynomial, all valid `|x| ≤ 7/16 + 2^-20` -/
+theorem restricted_atan_bound {x : TwoFloat} (hv : x.Valid) (hw : x.WF) (hhi : |val x| ≤ atanRho) :
+    (trigonometry.restricted_atan x).Valid ∧ (trigonometry.restricted_atan x).WF ∧
+    |val (trigonometry.restricted_atan x) - atanPolyQ (val x)| ≤ |val x| * 17 / 2 ^ 99 + 1 / 2 ^ 949 := by
+  have h := restrictedM_bound (cs := trigonometry.ATAN_COEFFS) (by decide) (by decide) ATAN_COEFFS_ok
+    (T := atanT0) (by unfold atanT0 atanRho; norm_num) (by rw [ATAN_COEFFS_val]; exact atan_hBnd) hv hw
+    (sq_le_atanT0 hhi)
+  rw [ATAN_COEFFS_val] at h
+  rw [restricted_atan_eq]
+  have e : ((trigonometry.ATAN_COEFFS.length + 2 : ℕ) : ℚ) = 17 := by
+    have : trigonometry.ATAN_COEFFS.length = 15 := by decide
+    rw [this]; norm_num
+  rw [e] at h
+  exact h
+
+/-- **`restricted_atan` against `Real.arctan`**, all valid `|x| ≤ 7/16 + 2^-20`:
+error `≤ |x|·(2^-72 + 2^-84) + 2^-949` -/
+theorem restricted_atan_real {x : TwoFloat} (hv : x.Valid) (hw : x.WF) (hhi : |val x| ≤ atanRho) :
+    (trigonometry.restricted_atan x).Valid ∧ (trigonometry.restricted_atan x).WF ∧
+    |rval (trigonometry.restricted_atan x) - Real.arctan (rval x)|
+      ≤ |rval x| * (1 / 2 ^ 72 + 1 / 2 ^ 84) + 1 / 2 ^ 949 := by
+  obtain ⟨hV, hW, hb⟩ := restricted_atan_bound hv hw hhi
+  have hr : |rval x| ≤ (atanRho : ℝ) := rval_le hhi
+  have hb' : |rval (trigonometry.restricted_atan x) - AtanPoly (rval x)| ≤ |rval x| * 17 / 2 ^ 99 + 1 / 2 ^ 949 := by
+    have := (Rat.cast_le (K := ℝ)).2 hb
+    rw [Rat.cast_abs, Rat.cast_sub, atanPolyQ_cast] at this
+    rw [abs_rval]
+    push_cast at this ⊢
+    exact this
+  refine ⟨hV, hW, ?_⟩
+  have e : rval (trigonometry.restricted_atan x) - Real.arctan (rval x)
+      = (rval (trigonometry.restricted_atan x) - AtanPoly (rval x)) - (Real.arctan (rval x) - AtanPoly (rval x)) := by
+    ring
+  rw [e]
+  refine le_trans (abs_sub _ _) ?_
+  have := atan_poly_rel hr
+  have h3 : |rval x| * 17 / 2 ^ 99 ≤ |rval x| * (1 / 2 ^ 85) := by
+    rw [mul_div_assoc]
+    exact mul_le_mul_of_nonneg_left (by norm_num) (abs_nonneg _)
+  have e2 : |rval x| * (1 / 2 ^ 72 + 1 / 2 ^ 84)
+      = |rval x| * (1 / 2 ^ 72 + 1 / 2 ^ 85) + |rval x| * (1 / 2 ^ 85) := by ring
+  rw [e2]; linarith
+
+/-- **`restricted_atan` relative to `|x|`, all valid `|x| ≤ 7/16 + 2^-20`** (`|x| ≤ 2^-540`: exact) -/
+theorem restricted_atan_rel {x : TwoFloat} (hv : x.Valid) (hw : x.WF) (hhi : |val x| ≤ atanRho) :
+    (trigonometry.restricted_atan x).Valid ∧ (trigonometry.restricted_atan x).WF ∧
+    |rval (trigonometry.restricted_atan x) - Real.arctan (rval x)| ≤ |rval x| * (1 / 2 ^ 72 + 1 / 2 ^ 83) := by
+  obtain ⟨hV, hW, h2⟩ := restricted_atan_real hv hw hhi
+  refine ⟨hV, hW, ?_⟩
+  by_cases hdeep : |val x| ≤ 1 / 2 ^ 540
+  · obtain ⟨_, he⟩ := restrictedM_deep atan_innerZero hv hw hdeep
+    rw [← restricted_atan_eq] at he
+    have e1 : rval (trigonometry.restricted_atan x) = rval x := by unfold rval; rw [he]
+    have hr : |rval x| ≤ 1 / 2 ^ 540 := by have := rval_le hdeep; push_cast at this; exact this
+    have hA := atan_poly_rel (r := rval x) (le_trans hr (by unfold atanRho; push_cast; norm_num))
+    have hP : |AtanPoly (rval x) - rval x| ≤ |rval x| * (1 / 2 ^ 1000) := by
+      unfold AtanPoly
+      have e : rval x * (rval x ^ 2 * peval atanCoeffs (rval x ^ 2) + 1) - rval x
+          = rval x * (rval x ^ 2 * peval atanCoeffs (rval x ^ 2)) := by ring
+      rw [e, abs_mul]
+      refine mul_le_mul_of_nonneg_left ?_ (abs_nonneg _)
+      have hsq : rval x ^ 2 ≤ 1 / 2 ^ 1080 := by
+        have := pow_le_pow_left₀ (abs_nonneg _) hr 2
+        rw [sq_abs] at this
+        refine le_trans this ?_
+        norm_num
+      have hpe : |peval atanCoeffs (rval x ^ 2)| ≤ 2 := by
+        have h1 := peval_le_absb atanCoeffs (h := 1) (s := rval x ^ 2)
+          (by rw [abs_of_nonneg (sq_nonneg _)]; push_cast; exact le_trans hsq (by norm_num))
+        refine le_trans h1 ?_
+        have : absb atanCoeffs 1 ≤ 2 := by decide +kernel
+        exact_mod_cast this
+      rw [abs_mul, abs_of_nonneg (sq_nonneg _)]
+      have := mul_le_mul hsq hpe (abs_nonneg _) (by positivity)
+      refine le_trans this ?_
+      norm_num
+    rw [e1]
+    have e : rval x - Real.arctan (rval x)
+        = -(Real.arctan (rval x) - AtanPoly (rval x)) - (AtanPoly (rval x) - rval x) := by ring
+    rw [e]
+    refine le_trans (abs_sub _ _) ?_
+    rw [abs_neg]
+    have : |rval x| * (1 / 2 ^ 72 + 1 / 2 ^ 85) + |rval x| * (1 / 2 ^ 1000)
+        ≤ |rval x| * (1 / 2 ^ 72 + 1 / 2 ^ 83) := by
+      rw [← mul_add]
+      exact mul_le_mul_of_nonneg_left (by norm_num) (abs_nonneg _)
+    linarith
+  · have hn : (1 : ℚ) / 2 ^ 540 ≤ |val x| := (not_le.1 hdeep).le
+    refine le_trans h2 ?_
+    have hr : (1 : ℝ) / 2 ^ 540 ≤ |rval x| := by
+      rw [abs_rval]
+      have := (Rat.cast_le (K := ℝ)).2 hn
+      rw [Rat.cast_div, Rat.cast_one, Rat.cast_pow, Rat.cast_ofNat] at this
+      exact this
+    have h3 : (1 : ℝ) / 2 ^ 949 ≤ |rval x| * (1 / 2 ^ 409) := by
+      have := mul_le_mul_of_nonneg_right hr (by positivity : (0 : ℝ) ≤ 1 / 2 ^ 409)
+      refine le_trans (le_of_eq ?_) this
+      norm_num
+    have h4 : |rval x| * (1 / 2 ^ 72 + 1 / 2 ^ 84) + |rval x| * (1 / 2 ^ 409)
+        ≤ |rval x| * (1 / 2 ^ 72 + 1 / 2 ^ 83) := by
+      rw [← mul_add]
+      exact mul_le_mul_of_nonneg_left (by norm_num) (abs_nonneg _)
+    linarith
+
+/-- `arctan` is `1`-Lipschitz -/
+theorem arctan_lipschitz (a b : ℝ) : |Real.arctan a - Real.arctan b| ≤ |a - b| := by
+  have key := (convex_univ : Convex ℝ (Set.univ : Set ℝ)).norm_image_sub_le_of_norm_hasDerivWithin_le
+    (f := Real.arctan) (f' := fun s => 1 / (1 + s ^ 2)) (C := 1) (x := b) (y := a)
+    (fun s _ => (Real.hasDerivAt_arctan s).hasDerivWithinAt)
+    (fun s _ => by
+      have hp : (0 : ℝ) < 1 + s ^ 2 := by positivity
+      rw [Real.norm_eq_abs, abs_of_pos (by positivity), div_le_iff₀ hp]
+      nlinarith [sq_nonneg s])
+    (Set.mem_univ _) (Set.mem_univ _)
+  simpa [Real.norm_eq_abs] using key
+
+/-! ## 6. more operator glue -/
+
+/-- `TwoFloat - f64` -/
+theorem sub_tf_val {x : TwoFloat} {f : F64} (hvx : x.Valid) (hwx : x.WF) (hff : f.is_finite = true) (hwf : f.WF)
+    (hx : |val x| ≤ 2 ^ 30) (hf : f.toInt.natAbs < 2 ^ 2095) :
+    (arithmetic.impl_Sub_rf64_for_rTwoFloat.sub x f).Valid ∧
+    (arithmetic.impl_Sub_rf64_for_rTwoFloat.sub x f).WF ∧
+    |val (arithmetic.impl_Sub_rf64_for_rTwoFloat.sub x f) - (val x - fval f)| ≤ 1 / 2 ^ 105 * |val x - fval f| := by
+  have hxh : x.hi.toInt.natAbs < 2 ^ 2095 :=
+    lt_trans (hi_natAbs_lt hvx hx) (Nat.pow_lt_pow_right (by norm_num) (by norm_num))
+  obtain ⟨hV, hb⟩ := C03b.sub_tf_f64_bound hvx hwx hff hwf hxh hf
+  refine ⟨hV, TwoFloat.sub_tf_WF x f, ?_⟩
+  have h := scaled_le (N := 1) (D := 2 ^ 105) (by positivity) (by simpa using hb)
+  unfold val fval
+  rw [← sub_div]
+  push_cast at h ⊢
+  exact h
+
+/-- `f64 + TwoFloat` -/
+theorem add_ft_val {x : TwoFloat} {f : F64} (hvx : x.Valid) (hwx : x.WF) (hff : f.is_finite = true) (hwf : f.WF)
+    (hx : |val x| ≤ 2 ^ 30) (hf : f.toInt.natAbs < 2 ^ 2095) :
+    (arithmetic.impl_Add_rTwoFloat_for_rf64.add f x).Valid ∧
+    (arithmetic.impl_Add_rTwoFloat_for_rf64.add f x).WF ∧
+    |val (arithmetic.impl_Add_rTwoFloat_for_rf64.add f x) - (fval f + val x)| ≤ 1 / 2 ^ 105 * |fval f + val x| := by
+  have hxh : x.hi.toInt.natAbs < 2 ^ 2095 :=
+    lt_trans (hi_natAbs_lt hvx hx) (Nat.pow_lt_pow_right (by norm_num) (by norm_num))
+  obtain ⟨hV, hb⟩ := C03b.add_f64_tf_bound hvx hwx hff hwf hxh hf
+  refine ⟨hV, PF.add_ft_WF f x, ?_⟩
+  have h := scaled_le (N := 1) (D := 2 ^ 105) (by positivity) (by simpa using hb)
+  unfold val fval
+  rw [← add_div]
+  push_cast at h ⊢
+  exact h
+
+/-- `f64 * TwoFloat`, product of the high word and `f` of magnitude in `[2^-960, 2^1021]` -/
+theorem mul_ft_val {x : TwoFloat} {f : F64} (hv : x.Valid) (hw : x.WF) (hff : f.is_finite = true) (hwf : f.WF)
+    (hr : x.hi.toInt * f.toInt = 0 ∨
+      ((2 : Int) ^ 1188 ≤ |x.hi.toInt * f.toInt| ∧ |x.hi.toInt * f.toInt| < (2 : Int) ^ 3169)) :
+    (arithmetic.impl_Mul_rTwoFloat_for_rf64.mul f x).Valid ∧
+    (arithmetic.impl_Mul_rTwoFloat_for_rf64.mul f x).WF ∧
+    |val (arithmetic.impl_Mul_rTwoFloat_for_rf64.mul f x) - fval f * val x| ≤ 1 / 2 ^ 105 * |fval f * val x| := by
+  obtain ⟨hV, hb⟩ := C04b.mul_f64_tf_bound hv hw hff hwf hr
+  refine ⟨hV, PF.mul_ft_WF f x, ?_⟩
+  generalize arithmetic.impl_Mul_rTwoFloat_for_rf64.mul f x = p at *
+  rw [unit_cast_eq] at hb
+  have hq : |(p.V : ℚ) * 2 ^ 1074 - f.toInt * x.V| * 2 ^ 105 ≤ |(f.toInt : ℚ) * x.V| := by exact_mod_cast hb
+  unfold val fval
+  have hW : (0 : ℚ) < 2 ^ 1074 := by positivity
+  generalize (2 : ℚ) ^ 1074 = W at *
+  have e1 : (p.V : ℚ) / W - f.toInt / W * (x.V / W) = ((p.V : ℚ) * W - f.toInt * x.V) / (W * W) := by field_simp
+  have e2 : (f.toInt : ℚ) / W * (x.V / W) = ((f.toInt : ℚ) * x.V) / (W * W) := by field_simp
+  rw [e1, e2, abs_div, abs_div, abs_of_pos (mul_pos hW hW), ← mul_div_assoc,
+    div_le_div_iff_of_pos_right (mul_pos hW hW), div_mul_eq_mul_div, one_mul, le_div_iff₀ (by positivity)]
+  exact hq
+
+/-- `recip x`, `x.hi` of magnitude in `[2^-1016, 2^964]`: `|1 − recip(x)·x| ≤ 2^-102` -/
+theorem recip_val {x : TwoFloat} (hv : x.Valid)
+    (hB : 2 ^ 58 ≤ x.hi.toInt.natAbs ∧ x.hi.toInt.natAbs ≤ 2 ^ 2038) :
+    (TwoFloat.recip x).Valid ∧ (TwoFloat.recip x).WF ∧ |1 - val (TwoFloat.recip x) * val x| ≤ 1 / 2 ^ 102 := by
+  obtain ⟨hV, hW⟩ := C01d.recip_valid x hv hB.1 (le_trans hB.2 (by norm_num))
+  have hb := C01d.recip_bound x hv hB.1 hB.2
+  refine ⟨hV, hW, ?_⟩
+  generalize TwoFloat.recip x = q at *
+  rw [unit_cast_eq] at hb
+  have hq : (2 : ℚ) ^ 102 * |(2 : ℚ) ^ 1074 * 2 ^ 1074 - q.V * x.V| ≤ (2 : ℚ) ^ 1074 * 2 ^ 1074 := by
+    exact_mod_cast hb
+  unfold val
+  have hW0 : (0 : ℚ) < 2 ^ 1074 := by positivity
+  generalize (2 : ℚ) ^ 1074 = W at *
+  have e1 : (1 : ℚ) - q.V / W * (x.V / W) = (W * W - q.V * x.V) / (W * W) := by field_simp
+  rw [e1, abs_div, abs_of_pos (mul_pos hW0 hW0), div_le_iff₀ (mul_pos hW0 hW0)]
+  have p : (0 : ℚ) < 2 ^ 102 := by positivity
+  have : (2 : ℚ) ^ 102 * (1 / 2 ^ 102 * (W * W)) = W * W := by field_simp
+  nlinarith
+
+/-! ## 7. `atan`: the selector `k = 4|x| + 0.25` and the thresholds -/
+
+theorem four_lit : (f64lit 0x4010000000000000).is_finite = true ∧ (f64lit 0x4010000000000000).WF ∧
+    (f64lit 0x4010000000000000).toInt = 1 * 2 ^ 2 * (unit : Int) := by decide +kernel
+
+theorem quarter_lit : (f64lit 0x3fd0000000000000).is_finite = true ∧ (f64lit 0x3fd0000000000000).WF ∧
+    (f64lit 0x3fd0000000000000).toInt = 2 ^ 1072 ∧ (f64lit 0x3fd0000000000000).toInt.natAbs < 2 ^ 2095 := by
+  decide +kernel
+
+theorem three_lit : (f64lit 0x4008000000000000).is_finite = true ∧ (f64lit 0x4008000000000000).WF ∧
+    (f64lit 0x4008000000000000).toInt = 3 * 2 ^ 1074 := by decide +kernel
+
+theorem five_lit : (f64lit 0x4014000000000000).is_finite = true ∧ (f64lit 0x4014000000000000).WF ∧
+    (f64lit 0x4014000000000000).toInt = 5 * 2 ^ 1074 := by decide +kernel
+
+theorem ten_lit : (f64lit 0x4024000000000000).is_finite = true ∧ (f64lit 0x4024000000000000).WF ∧
+    (f64lit 0x4024000000000000).toInt = 10 * 2 ^ 1074 := by decide +kernel
+
+theorem three_halves_lit : (f64lit 0x3ff8000000000000).is_finite = true ∧ (f64lit 0x3ff8000000000000).WF ∧
+    (f64lit 0x3ff8000000000000).toInt = 3 * 2 ^ 1073 ∧ (f64lit 0x3ff8000000000000).toInt.natAbs < 2 ^ 2095 := by
+  decide +kernel
+
+theorem half_natAbs : (f64lit 0x3fe0000000000000).toInt.natAbs < 2 ^ 2095 := by decide +kernel
+
+theorem fval_of {f : F64} {n : Int} (h : f.toInt = n * 2 ^ 1074) : fval f = (n : ℚ) := by
+  unfold fval
+  rw [h, Int.cast_mul, Int.cast_pow, Int.cast_ofNat, mul_div_assoc, div_self (by positivity), mul_one]
+
+theorem fval_two : fval (f64lit 0x4000000000000000) = 2 := by
+  have : (f64lit 0x4000000000000000).toInt = 2 * 2 ^ 1074 := by rw [two_facts.2.2.1]; norm_num
+  exact_mod_cast fval_of this
+theorem fval_three : fval (f64lit 0x4008000000000000) = 3 := by exact_mod_cast fval_of three_lit.2.2
+theorem fval_five : fval (f64lit 0x4014000000000000) = 5 := by exact_mod_cast fval_of five_lit.2.2
+theorem fval_ten : fval (f64lit 0x4024000000000000) = 10 := by exact_mod_cast fval_of ten_lit.2.2
+theorem fval_half : fval (f64lit 0x3fe0000000000000) = 1 / 2 := by
+  unfold fval
+  rw [half_facts.2.2, Int.cast_pow, Int.cast_ofNat, pow_succ (2 : ℚ) 1073, div_mul_eq_div_div,
+    div_self (by positivity)]
+theorem fval_quarter : fval (f64lit 0x3fd0000000000000) = 1 / 4 := by
+  unfold fval
+  rw [quarter_lit.2.2.1, Int.cast_pow, Int.cast_ofNat]
+  have : (2 : ℚ) ^ 1074 = 2 ^ 1072 * 4 := by rw [show (4 : ℚ) = 2 ^ 2 by norm_num, ← pow_add]
+  rw [this, div_mul_eq_div_div, div_self (by positivity)]
+theorem fval_three_halves : fval (f64lit 0x3ff8000000000000) = 3 / 2 := by
+  unfold fval
+  rw [three_halves_lit.2.2.1, Int.cast_mul, Int.cast_pow, Int.cast_ofNat, Int.cast_ofNat,
+    pow_succ (2 : ℚ) 1073, mul_div_assoc, div_mul_eq_div_div, div_self (by positivity)]
+  norm_num
+
+/-- the upper half of `hi_range_gen` -/
+theorem hi_le_gen {t : TwoFloat} (hv : t.Valid) {j : ℕ} (h2 : |val t| ≤ 2 ^ j) :
+    t.hi.toInt.natAbs ≤ 2 ^ (1075 + j) := by
+  have a2 : |t.V| ≤ (2 : Int) ^ (1074 + j) := int_upper h2
+  obtain ⟨b1, _⟩ := hi_bounds hv
+  have c2 : |t.hi.toInt| ≤ (2 : Int) ^ (1075 + j) := by
+    have e : (2 : Int) ^ (1075 + j) = 2 * 2 ^ (1074 + j) := by
+      rw [← pow_succ']; congr 1; omega
+    rw [e]
+    have p : (0 : Int) < 2 ^ (1074 + j) := by positivity
+    generalize (2 : Int) ^ (1074 + j) = W at *
+    nlinarith [abs_nonneg t.hi.toInt]
+  rw [Int.abs_eq_natAbs] at c2
+  exact_mod_cast c2
+
+/-- `TwoFloat + f64`, wide range -/
+theorem add_tf_val_wide {x : TwoFloat} {f : F64} (hvx : x.Valid) (hwx : x.WF) (hff : f.is_finite = true)
+    (hwf : f.WF) (hxh : x.hi.toInt.natAbs < 2 ^ 2095) (hf : f.toInt.natAbs < 2 ^ 2095) :
+    (arithmetic.impl_Add_rf64_for_rTwoFloat.add x f).Valid ∧
+    (arithmetic.impl_Add_rf64_for_rTwoFloat.add x f).WF ∧
+    |val (arithmetic.impl_Add_rf64_for_rTwoFloat.add x f) - (val x + fval f)| ≤ 1 / 2 ^ 105 * |val x + fval f| := by
+  obtain ⟨hV, hb⟩ := C03b.add_tf_f64_bound hvx hwx hff hwf hxh hf
+  refine ⟨hV, TwoFloat.add_tf_WF x f, ?_⟩
+  have h := scaled_le (N := 1) (D := 2 ^ 105) (by positivity) (by simpa using hb)
+  unfold val fval
+  rw [← add_div]
+  push_cast at h ⊢
+  exact h
+
+/-- comparisons of a valid pair with a double literal are comparisons of the values -/
+theorem cmp_le_lit {k : TwoFloat} (hk : k.Valid) {c : F64} (hc : c.WF) (hcf : c.is_finite = true) :
+    ROrd.isLe (base.impl_PartialOrd_f64_for_TwoFloat.partial_cmp k c) = true ↔ val k ≤ fval c := by
+  rw [show base.impl_PartialOrd_f64_for_TwoFloat.partial_cmp = C06.cmpTF from rfl, C06.le_f64_exact hk hc hcf]
+  unfold val fval
+  rw [div_le_div_iff_of_pos_right (by positivity)]
+  exact_mod_cast Iff.rfl
+
+theorem cmp_lt_lit {k : TwoFloat} (hk : k.Valid) {c : F64} (hc : c.WF) (hcf : c.is_finite = true) :
+    ROrd.isLt (base.impl_PartialOrd_f64_for_TwoFloat.partial_cmp k c) = true ↔ val k < fval c := by
+  rw [show base.impl_PartialOrd_f64_for_TwoFloat.partial_cmp = C06.cmpTF from rfl, C06.lt_f64_exact hk hc hcf]
+  unfold val fval
+  rw [div_lt_div_iff_of_pos_right (by positivity)]
+  exact_mod_cast Iff.rfl
+
+/-- **the selector of `atan`**: `k = 4·|x| + 0.25` up to a relative `2^-105` -/
+theorem atan_k {x : TwoFloat} (hv : x.Valid) (hw : x.WF) (hx : |val x| ≤ 2 ^ 60) :
+    (arithmetic.impl_Add_rf64_for_rTwoFloat.add
+      (arithmetic.impl_Mul_rTwoFloat_for_rf64.mul (f64lit 0x4010000000000000) (TwoFloat.abs x))
+      (f64lit 0x3fd0000000000000)).Valid ∧
+    |val (arithmetic.impl_Add_rf64_for_rTwoFloat.add
+      (arithmetic.impl_Mul_rTwoFloat_for_rf64.mul (f64lit 0x4010000000000000) (TwoFloat.abs x))
+      (f64lit 0x3fd0000000000000)) - (4 * |val x| + 1 / 4)| ≤ 1 / 2 ^ 105 * (4 * |val x| + 1 / 4) := by
+  obtain ⟨ha, hwa, hval⟩ := abs_facts hv hw
+  set a := TwoFloat.abs x with hadef
+  have haj : |val a| ≤ 2 ^ 60 := by rw [hval, _root_.abs_abs]; exact hx
+  have hah := hi_le_gen ha haj
+  have hmax : (2 : Nat) ^ (1075 + 60) * 2 ^ 2 ≤ maxFin :=
+    le_trans (by rw [← pow_add]; exact Nat.pow_le_pow_right (by norm_num) (by norm_num)) two_pow_2097_le_maxFin
+  obtain ⟨_, _, hV4', hv4', hw4'⟩ := C04x.mul_ft_pow2_up (f64lit 0x4010000000000000) a 1 2 (Or.inl rfl) ha hwa
+    four_lit.1 four_lit.2.2 (le_trans (Nat.mul_le_mul_right _ hah) hmax)
+  have hV4 : (arithmetic.impl_Mul_rTwoFloat_for_rf64.mul (f64lit 0x4010000000000000) a).V = 1 * 2 ^ 2 * a.V := hV4'
+  have hv4 : (arithmetic.impl_Mul_rTwoFloat_for_rf64.mul (f64lit 0x4010000000000000) a).Valid := hv4'
+  have hw4 : (arithmetic.impl_Mul_rTwoFloat_for_rf64.mul (f64lit 0x4010000000000000) a).WF := hw4'
+  have hkm : val (arithmetic.impl_Mul_rTwoFloat_for_rf64.mul (f64lit 0x4010000000000000) a) = 4 * val a := by
+    unfold val
+    rw [hV4]; push_cast; ring
+  have hkmj : |val (arithmetic.impl_Mul_rTwoFloat_for_rf64.mul (f64lit 0x4010000000000000) a)| ≤ 2 ^ 62 := by
+    rw [hkm, abs_mul]
+    have : |(4 : ℚ)| = 4 := by norm_num
+    rw [this]
+    have : (2 : ℚ) ^ 62 = 4 * 2 ^ 60 := by norm_num
+    rw [this]
+    exact mul_le_mul_of_nonneg_left haj (by norm_num)
+  have hkmh := hi_le_gen hv4 hkmj
+  obtain ⟨hvk, _, hek⟩ := add_tf_val_wide hv4 hw4 quarter_lit.1 quarter_lit.2.1
+    (lt_of_le_of_lt hkmh (Nat.pow_lt_pow_right (by norm_num) (by norm_num))) quarter_lit.2.2.2
+  refine ⟨hvk, ?_⟩
+  rw [hkm, hval, fval_quarter] at hek
+  have hp : (0 : ℚ) ≤ 4 * |val x| + 1 / 4 := by positivity
+  rwa [abs_of_nonneg hp] at hek
+
+/-- thresholds: a computed `vk ≈ E` (relative `2^-105`) below / above a constant `c ≤ 16` -/
+theorem thr {E vk c : ℚ} (h : |vk - E| ≤ 1 / 2 ^ 105 * E) (hc : c ≤ 16) :
+    (vk ≤ c → E ≤ c + 1 / 2 ^ 100) ∧ (c ≤ vk → c - 1 / 2 ^ 100 ≤ E) := by
+  obtain ⟨l, u⟩ := abs_le.1 h
+  constructor
+  · intro hle
+    by_contra hn
+    have hE' : c + 1 / 2 ^ 100 < E := not_le.1 hn
+    have : 1 / 2 ^ 105 * E ≤ 1 / 2 ^ 105 * E := le_refl _
+    -- E(1 − ε) ≤ vk ≤ c
+    have h2 : E * (1 - 1 / 2 ^ 105) ≤ c := by linarith
+    have h3 : (c + 1 / 2 ^ 100) * (1 - 1 / 2 ^ 105) < E * (1 - 1 / 2 ^ 105) :=
+      mul_lt_mul_of_pos_right hE' (by norm_num)
+    have h4 : c ≤ (c + 1 / 2 ^ 100) * (1 - 1 / 2 ^ 105) := by
+      have : (c + 1 / 2 ^ 100) * (1 - 1 / 2 ^ 105) = c + (1 / 2 ^ 100 - c / 2 ^ 105 - 1 / 2 ^ 205) := by ring
+      rw [this]
+      have : c / 2 ^ 105 ≤ 16 / 2 ^ 105 := div_le_div_of_nonneg_right hc (by positivity)
+      have : (16 : ℚ) / 2 ^ 105 + 1 / 2 ^ 205 ≤ 1 / 2 ^ 100 := by norm_num
+      linarith
+    linarith
+  · intro hge
+    have h2 : c ≤ E * (1 + 1 / 2 ^ 105) := by linarith
+    by_contra hn
+    have hE' : E < c - 1 / 2 ^ 100 := not_le.1 hn
+    have h3 : E * (1 + 1 / 2 ^ 105) < (c - 1 / 2 ^ 100) * (1 + 1 / 2 ^ 105) :=
+      mul_lt_mul_of_pos_right hE' (by norm_num)
+    have h4 : (c - 1 / 2 ^ 100) * (1 + 1 / 2 ^ 105) ≤ c := by
+      have : (c - 1 / 2 ^ 100) * (1 + 1 / 2 ^ 105) = c - (1 / 2 ^ 100 - c / 2 ^ 105 + 1 / 2 ^ 205) := by ring
+      rw [this]
+      have : c / 2 ^ 105 ≤ 16 / 2 ^ 105 := div_le_div_of_nonneg_right hc (by positivity)
+      have : (16 : ℚ) / 2 ^ 105 ≤ 1 / 2 ^ 100 := by norm_num
+      have : (0 : ℚ) ≤ 1 / 2 ^ 205 := by positivity
+      linarith
     linarith
 
 end C17t
